@@ -47,7 +47,7 @@ REPLAYS = os.path.join(ROOT, "replays")
 KANI_HOME = os.path.expanduser("~/.kani/kani-0.68.0")
 KANI_LIB_C = os.path.join(KANI_HOME, "library/kani/kani_lib.c")
 TRIPLE = "x86_64-unknown-linux-gnu"
-TOTAL_MEM_GB = 54  # of 62; leave room for cargo/rustc and the OS
+TOTAL_MEM_GB = int(os.environ.get("VERIF_MEM_GB", "54"))  # of 62; leave room for cargo/rustc and the OS
 NJOBS = int(os.environ.get("VERIF_JOBS", "16"))
 
 CBMC_BASE = [
